@@ -77,7 +77,11 @@ Theorem alarm_limit_pairs : forall (K : Type) (K_eq_dec : forall x y : K, {x = y
   incl pairs (nodup P_eq_dec (map report full)) /\ (map report full <> [] -> pairs <> []).
 Proof. exact Closure.alarm_limit_pairs. Qed.
 
-(** the driver loop over entry points: fresh seen-set per entry, shared counter tested before each entry *)
+(** the driver loop over entry points: fresh seen-set per entry, shared counter tested before each entry.
+    INSTANTIATION NOTE: the counter is shared by EVERYTHING that runs on one analyzer state - [taint.Analyze] runs one
+    visitor pass ([BuildAndRunVisitor] / [RunVisitorOnEntryPoints]) per taint-tracking problem on the same state, so
+    [entries] is the concatenation of the entry points of ALL problems in pass order and [k] bounds the total; a counter
+    reset between passes is outside this model (tools/props/c05.py checks it with a three-problem configuration) *)
 Theorem alarm_limit_entries : forall (K : Type) (K_eq_dec : forall x y : K, {x = y} + {x <> y}) (succ : K -> list K)
     (is_sink : K -> bool) (St : Type) (nexts : St -> K -> list K * St) (sched : St -> list K -> list K * St)
     (Inv : St -> Prop) (fuel k : nat) (entries : list (list K)) (s0 : St) (hs : list (list K)),
